@@ -157,3 +157,48 @@ func VerifH09w() {
 	vAssert("wrong-arity-emits-nothing", len(conn.out) == 0)
 	vReach("wrong-arity")
 }
+
+// ---------------------------------------------------------------------------
+// H09d — RowDescription content (C09/C08/C02): every field of every column
+// definition is symbolic; the message must carry, per column, the name, table
+// id, attribute number, type OID, width, type modifier -1 and the format code
+// chosen by the none/one/n rule, in the protocol's order.
+// ---------------------------------------------------------------------------
+func VerifH09d() {
+	srv, _ := NewServer(nil)
+	ctx := vCtx(srv)
+	nc := 1 + vChoose(vParam("COLS", 2))
+	cols := make(Columns, nc)
+	names := make([][]byte, nc)
+	for i := range cols {
+		names[i] = nondetBytes(vChoose(3))
+		vAssume(vNoNUL(names[i]))
+		cols[i] = Column{
+			Table: int32(nondetU32()), ID: int32(nondetU32()), Attr: int16(nondetU16()), Name: string(names[i]),
+			AttrNo: int16(nondetU16()), Oid: oid.Oid(nondetU32()), Width: int16(nondetU16()), TypeModifier: int32(nondetU32()),
+		}
+	}
+	formats := vFormats(nc)
+	conn := vNewConn(nil)
+	w := buffer.NewWriter(slog.Default(), conn)
+	vAssert("define-ok", cols.Define(ctx, w, formats) == nil)
+	msgs, ok := vFrames(conn.out)
+	vAssert("one-RowDescription", ok && len(msgs) == 1 && msgs[0].typ == 'T' && vBodyOK(msgs[0]))
+	want := vU16(nc)
+	for i, c := range cols {
+		want = append(want, vCStr(names[i])...)
+		want = append(want, vU32(uint32(c.Table))...)
+		want = append(want, vU16(int(uint16(c.AttrNo)))...)
+		want = append(want, vU32(uint32(c.Oid))...)
+		want = append(want, vU16(int(uint16(c.Width)))...)
+		want = append(want, 0xFF, 0xFF, 0xFF, 0xFF)
+		want = append(want, vU16(int(uint16(vFormatFor(formats, i))))...)
+	}
+	vAssert("rowdescription-content", vEqBytes(msgs[0].body, want))
+	if nc == 2 {
+		vReach("two-columns")
+	}
+	// no columns: nothing is written (NoData is the Describe path's business)
+	conn.out = nil
+	vAssert("define-nothing-for-no-columns", Columns(nil).Define(ctx, w, nil) == nil && len(conn.out) == 0)
+}
